@@ -169,6 +169,9 @@ type stackOpts struct {
 	// the SSO proxy instance of an sso stack (C14: browser histories through proxy + server)
 	proxyIngresses []string // ingresses of the proxy (nil = http://proxy.wonderwall)
 	ssoServerURL   string   // sso.server-url of the proxy ("" = http://wonderwall)
+	// a STANDALONE instance (sso false) whose configuration still carries sso.* settings (a deployment template shared with
+	// the SSO instances): copied to cfg.SSO with Enabled forced to false. Nothing of it may influence the instance.
+	ssoLeftover *config.SSO
 }
 
 type upstreamRec struct {
@@ -338,6 +341,9 @@ func newStack(o stackOpts) (*stack, error) {
 		if o.ssoDefaultTarget != "" {
 			cfg.SSO.ServerDefaultRedirectURL = o.ssoDefaultTarget
 		}
+	} else if o.ssoLeftover != nil {
+		cfg.SSO = *o.ssoLeftover
+		cfg.SSO.Enabled = false
 	}
 	s.cfg = cfg
 	_, ck := sharedKeys()
